@@ -78,6 +78,7 @@ class Engine(ExprMixin, CallMixin):
         self.comp_target_class = None
         self.visited_lines = set()        # line numbers of every statement reached by the symbolic execution
         self.list_class = None            # HeapClass of the result of list(<generator call>)
+        self.pair_list_class = None       # ... for a generator of pairs: a list of references to 2-cell records
         self.set_class = None             # HeapClass of the result of set(opaque iterable)
         self.paths = 0
         self.dropped = []
